@@ -209,6 +209,14 @@ def check_modes(ctx, Z, aotools, N, rng, jcount):
             i = np.unravel_index(np.argmax(np.abs(A[k])), A[k].shape)
             ctx.close("rms_is_rescaling", Arms[k] * (A[k][i] / Arms[k][i]), A[k], 1e-10 * np.abs(A[k]).max(), "norm:rms_shape", wit0)
             ctx.close("p2v_is_rescaling", Ap2v[k] * (A[k][i] / Ap2v[k][i]), A[k], 1e-10 * np.abs(A[k]).max(), "norm:p2v_shape", wit0)
+    # the count form rounds its arguments: a size given as a float (32.4, 31.6) is the grid of the rounded size, in every normalisation
+    Nf = N + float(rng.uniform(0.03, 0.45)) * float(rng.choice([-1, 1]))
+    jc = min(jcount, 12)
+    for norm, base in (("noll", A), ("rms", Arms), ("p2v", Ap2v)):
+        got = Z.zernikeArray(jc + float(rng.uniform(-0.4, 0.4)), Nf, norm)
+        ctx.count("float_size_checks")
+        if ctx.check(np.shape(got) == (jc, N, N), "zernikeArray:float_size:shape", "zernikeArray(%d, %r, %r) has shape %s" % (jc, Nf, norm, np.shape(got)), dict(wit0, N_given=Nf, norm=norm)):
+            ctx.close("float_size_equals_rounded_size", got, base[:jc], 1e-13 * float(np.abs(base[:jc]).max()), "zernikeArray:float_size:" + norm, dict(wit0, N_given=Nf, norm=norm))
     return gerr, nmax
 
 
